@@ -425,6 +425,69 @@ fn disp_corpus() -> Vec<Value> {
     c
 }
 
+// ------------------------------------------------------------------ deep nests (depth x indent)
+
+/// indents of the deep family besides `INDENTS`: runs of blanks longer than one level's worth of any chunked fast path, and a two-byte non-blank one
+pub const DEEP_INDENTS: [&[u8]; 4] = [b"    ", b"        ", b"                                 ", b"\t\t"];
+
+/// `depth` containers inside one another; `shape` 0 = sequences only, 1 = maps only, 2 = alternating (sequence outermost), 3 = alternating (map
+/// outermost); the innermost container holds `leaf` (1 or 2) scalars; with `sib` every wrapping container has a second, scalar element after the nested one
+fn deep_is_map(shape: usize, level: usize) -> bool { match shape { 0 => false, 1 => true, 2 => level % 2 == 1, _ => level % 2 == 0 } }
+fn deep_prog(depth: usize, shape: usize, leaf: usize, sib: bool) -> Prog {
+    let mut cur: Option<Prog> = None;
+    for level in (0..depth).rev() {
+        let m = deep_is_map(shape, level);
+        cur = Some(match cur {
+            None => if m { map((0..leaf).map(|k| (s(if k == 0 { "a" } else { "b" }), i(k as i32 + 1))).collect()) } else { seq((0..leaf).map(|k| i(k as i32 + 1)).collect()) },
+            Some(inner) => if m { let mut es = vec![(s("a"), inner)]; if sib { es.push((s("b"), Prog::Bool(true))); } map(es) }
+                           else { let mut xs = vec![inner]; if sib { xs.push(Prog::Unit); } seq(xs) },
+        });
+    }
+    cur.unwrap_or(Prog::Unit)
+}
+fn deep_value(depth: usize, shape: usize, leaf: usize, sib: bool) -> Value {
+    let mut cur: Option<Value> = None;
+    for level in (0..depth).rev() {
+        let m = deep_is_map(shape, level);
+        let mk_map = |es: Vec<(&str, Value)>| { let mut o = Map::new(); for (k, v) in es { o.insert(k.to_string(), v); } Value::Object(o) };
+        cur = Some(match cur {
+            None => if m { mk_map((0..leaf).map(|k| (if k == 0 { "a" } else { "b" }, Value::from(k as u64 + 1))).collect()) } else { Value::Array((0..leaf).map(|k| Value::from(k as u64 + 1)).collect()) },
+            Some(inner) => if m { let mut es = vec![("a", inner)]; if sib { es.push(("b", Value::Bool(true))); } mk_map(es) }
+                           else { let mut xs = vec![inner]; if sib { xs.push(Value::Null); } Value::Array(xs) },
+        });
+    }
+    cur.unwrap_or(Value::Null)
+}
+
+/// C03, "depth x indent": nests of every depth 1..=44 (thorough 70) in four shapes around a one- or two-element innermost container,
+/// pretty-printed with every indent of `INDENTS` and `DEEP_INDENTS` (the 33-blank one at selected depths), and the corresponding
+/// `Value` through `{}` / `{:#}` / to_string / to_string_pretty (op disp)
+fn deep(sink: &mut Sink, thorough: bool) {
+    let maxd = if thorough { 70 } else { 44 };
+    for depth in 1..=maxd {
+        for shape in 0..4 {
+            for leaf in 1..=2usize {
+                // quick tier (thorough: beyond depth 44): one leaf size per (depth, shape), shape 3 at every fourth depth
+                let sparse = !thorough || depth > 44;
+                if sparse && (leaf != 1 + (depth + shape) % 2 || (shape == 3 && depth % 4 != 0)) { continue; }
+                let sib = (depth + shape + leaf) % 3 == 0;
+                let p = deep_prog(depth, shape, leaf, sib);
+                let c = Case::new(&p);
+                emit_serc(sink, &c);
+                for ind in INDENTS { emit_serp(sink, &c, ind); }
+                for (k, ind) in DEEP_INDENTS.iter().enumerate() {
+                    if k == 2 && !(depth <= 3 || depth % 16 >= 15 || depth % 16 <= 1 || depth == maxd) { continue; }
+                    if k == 1 && depth > 44 && depth % 4 != 2 && depth != maxd { continue; }
+                    emit_serp(sink, &c, ind);
+                }
+                if depth % 8 == 0 { emit_serbufs(sink, &c, Some(b"  ")); emit_serbufs(sink, &c, Some(b"")); }
+                let v = deep_value(depth, shape, leaf, sib);
+                emit_disp(sink, &v, "deep");
+            }
+        }
+    }
+}
+
 // ------------------------------------------------------------------ run
 
 pub fn run(sink: &mut Sink, thorough: bool, seed: u64) {
@@ -480,6 +543,8 @@ pub fn run(sink: &mut Sink, thorough: bool, seed: u64) {
         if k % 3 == 0 { let v = gen_value(&mut r, 3); emit_disp(sink, &v, "common"); }
         else { let d = r.below(4); let v = gen_dvalue(&mut r, d); emit_disp(sink, &v, "local"); }
     }
+    // (c') deep nests: depth x indent (no randomness)
+    deep(sink, thorough);
     // (d) Display through a `fmt::Write` that fails after a byte budget (own generator state: the cases above keep their seeds)
     let mut r = Rng::new(seed ^ 0xd15f_a017);
     for v in disp_corpus() {
